@@ -50,9 +50,28 @@ theorem inv_set_chan {n : Net} (h : Inv n) (c : Nat) (ch' : Chan) (hl : ch'.load
   · exact h.2 x hx
   · subst hx; exact hl
 
-theorem recOk_stay (w : Bool) (k : Nat) (v : Verdict) (enS enR : Bool) (s lb load bw : Nat)
+theorem le_foldr_max (l : List Nat) (i x : Nat) (h : l[i]? = some x) : x ≤ l.foldr max 0 := by
+  induction l generalizing i with
+  | nil => simp at h
+  | cons a as ih =>
+    cases i with
+    | zero =>
+      simp only [List.getElem?_cons_zero, Option.some.injEq] at h
+      subst h
+      simp only [List.foldr_cons]
+      exact Nat.le_max_left _ _
+    | succ j =>
+      simp only [List.getElem?_cons_succ] at h
+      have := ih j h
+      simp only [List.foldr_cons]
+      exact Nat.le_trans this (Nat.le_max_right _ _)
+
+/-- The capacity an interface is admitted against is at most the channel's largest capacity. -/
+theorem caps_le_cap (ch : Chan) (i x : Nat) (h : ch.caps[i]? = some x) : x ≤ ch.cap := le_foldr_max ch.caps i x h
+
+theorem recOk_stay (w : Bool) (k : Nat) (v : Verdict) (enS enR : Bool) (s lb load bw cs : Nat)
     (hv : v.crossed = false) (hl : load ≤ bw) :
-    RecOk { wireless := w, k, verdict := v, enS, enR, rcv := [], size := s, loadBefore := lb, load, bw } := by
+    RecOk { wireless := w, k, verdict := v, enS, enR, rcv := [], size := s, loadBefore := lb, load, bw, capS := cs } := by
   refine ⟨hl, ?_⟩
   intro hc
   simp [hv] at hc
@@ -70,7 +89,7 @@ theorem runEv_ok (n : Net) (e : Ev) (h : Inv n) :
       intro r hr
       simp only [List.mem_singleton] at hr
       subst hr
-      exact recOk_stay _ _ _ _ _ _ _ _ _ rfl (Nat.le_refl _)
+      exact recOk_stay _ _ _ _ _ _ _ _ _ _ rfl (Nat.le_refl _)
     | some l =>
       have hl : l.load ≤ l.bw := h.1 l (List.mem_of_getElem? hk)
       simp only
@@ -109,19 +128,19 @@ theorem runEv_ok (n : Net) (e : Ev) (h : Inv n) :
             intro r hr
             simp only [List.mem_singleton] at hr
             subst hr
-            exact recOk_stay _ _ _ _ _ _ _ _ _ rfl hl
+            exact recOk_stay _ _ _ _ _ _ _ _ _ _ rfl hl
         · simp only [h1, h2, Bool.not_true, Bool.not_false, Bool.false_eq_true, if_false, if_true]
           refine ⟨h, ?_⟩
           intro r hr
           simp only [List.mem_singleton] at hr
           subst hr
-          exact recOk_stay _ _ _ _ _ _ _ _ _ rfl hl
+          exact recOk_stay _ _ _ _ _ _ _ _ _ _ rfl hl
       · simp only [h1, Bool.not_false, if_true]
         refine ⟨h, ?_⟩
         intro r hr
         simp only [List.mem_singleton] at hr
         subst hr
-        exact recOk_stay _ _ _ _ _ _ _ _ _ rfl hl
+        exact recOk_stay _ _ _ _ _ _ _ _ _ _ rfl hl
   | wsend c i s nested =>
     unfold runEv
     cases hk : n.chans[c]? with
@@ -130,7 +149,7 @@ theorem runEv_ok (n : Net) (e : Ev) (h : Inv n) :
       intro r hr
       simp only [List.mem_singleton] at hr
       subst hr
-      exact recOk_stay _ _ _ _ _ _ _ _ _ rfl (Nat.le_refl _)
+      exact recOk_stay _ _ _ _ _ _ _ _ _ _ rfl (Nat.le_refl _)
     | some ch =>
       have hl : ch.load ≤ ch.cap := h.2 ch (List.mem_of_getElem? hk)
       simp only
@@ -140,8 +159,18 @@ theorem runEv_ok (n : Net) (e : Ev) (h : Inv n) :
         intro r hr
         simp only [List.mem_singleton] at hr
         subst hr
-        exact recOk_stay _ _ _ _ _ _ _ _ _ rfl hl
+        exact recOk_stay _ _ _ _ _ _ _ _ _ _ rfl hl
       | some enS =>
+        simp only
+        cases hcI : ch.caps[i]? with
+        | none =>
+          refine ⟨h, ?_⟩
+          intro r hr
+          simp only [List.mem_singleton] at hr
+          subst hr
+          exact recOk_stay _ _ _ _ _ _ _ _ _ _ rfl hl
+        | some capI =>
+        have hcap : capI ≤ ch.cap := caps_le_cap ch i capI hcI
         simp only
         cases enS with
         | false =>
@@ -150,13 +179,13 @@ theorem runEv_ok (n : Net) (e : Ev) (h : Inv n) :
           intro r hr
           simp only [List.mem_singleton] at hr
           subst hr
-          exact recOk_stay _ _ _ _ _ _ _ _ _ rfl hl
+          exact recOk_stay _ _ _ _ _ _ _ _ _ _ rfl hl
         | true =>
-          by_cases h3 : admits ch.load s ch.cap = true
+          by_cases h3 : admits ch.load s capI = true
           · simp only [h3, Bool.not_true, Bool.false_eq_true, if_false]
-            have hfit : ch.load + s ≤ ch.cap := by simpa [admits] using h3
+            have hfit : ch.load + s ≤ capI := by simpa [admits] using h3
             have hn1 : Inv { n with chans := n.chans.set c { ch with load := ch.load + s } } :=
-              inv_set_chan h c _ hfit
+              inv_set_chan h c _ (by show ch.load + s ≤ ch.cap; omega)
             obtain ⟨hi', hr⟩ := runEvs_ok _ nested hn1
             refine ⟨hi', ?_⟩
             intro r hmem
@@ -170,7 +199,7 @@ theorem runEv_ok (n : Net) (e : Ev) (h : Inv n) :
             intro r hr
             simp only [List.mem_singleton] at hr
             subst hr
-            exact recOk_stay _ _ _ _ _ _ _ _ _ rfl hl
+            exact recOk_stay _ _ _ _ _ _ _ _ _ _ rfl hl
   | setEn k endA v =>
     unfold runEv
     cases hk : n.links[k]? with
@@ -300,14 +329,14 @@ theorem C18_overflow_dropped_at_sender (n : Net) (k : Nat) (fromA : Bool) (s : N
   · by_cases h2 : l.isUp = true <;> simp [h1, h2, Verdict.crossed]
   · simp [h1, Verdict.crossed]
 
-/-- **Overflow is dropped at the sender (wireless).** -/
+/-- **Overflow is dropped at the sender (wireless).** The capacity is the one of the sender's frequency name. -/
 theorem C18_air_overflow_dropped_at_sender (n : Net) (c i s : Nat) (nested : List Ev)
-    (ch : Chan) (hc : n.chans[c]? = some ch) (hover : ch.cap < ch.load + s) :
+    (ch : Chan) (hc : n.chans[c]? = some ch) (capI : Nat) (hcap : ch.caps[i]? = some capI) (hover : capI < ch.load + s) :
     (runEv n (.wsend c i s nested)).1 = n ∧
     ∃ r, (runEv n (.wsend c i s nested)).2 = [r] ∧ r.verdict.crossed = false ∧ r.load = ch.load := by
-  have hadm : admits ch.load s ch.cap = false := by simp [admits]; omega
+  have hadm : admits ch.load s capI = false := by simp [admits]; omega
   unfold runEv
-  simp only [hc, hadm]
+  simp only [hc, hcap, hadm]
   cases hi : ch.en[i]? with
   | none => simp [Verdict.crossed]
   | some enS => cases enS <;> simp [Verdict.crossed]
@@ -346,7 +375,7 @@ theorem C18_admitted_iff_fits (n : Net) (k : Nat) (fromA : Bool) (s : Nat) (acc 
 theorem C18_tick_starts_zero (n : Net) :
     (∀ l ∈ (tick n).links, l.load = 0) ∧ (∀ c ∈ (tick n).chans, c.load = 0) ∧
     (tick n).links.map (fun l => (l.bw, l.enA, l.enB)) = n.links.map (fun l => (l.bw, l.enA, l.enB)) ∧
-    (tick n).chans.map (fun c => (c.cap, c.en)) = n.chans.map (fun c => (c.cap, c.en)) := by
+    (tick n).chans.map (fun c => (c.caps, c.en)) = n.chans.map (fun c => (c.caps, c.en)) := by
   refine ⟨?_, ?_, ?_, ?_⟩
   · intro l hl
     simp only [tick, List.mem_map] at hl
@@ -387,10 +416,13 @@ theorem C18_gen_orders :
     Gen.Link.wiredSendOrder = wiredSendOrder ∧ Gen.Link.switchSendOrder = switchSendOrder ∧
     Gen.Link.wirelessSendOrder = wirelessSendOrder := by decide
 
-/-- The remaining structural facts the model relies on. -/
+/-- The remaining structural facts the model relies on: every load is reset by the tick; disabling an interface does *not*
+touch the link's load (F-40 repaired; on the unrepaired tree the extractor emits `true` and this obligation fails); a refusing
+interface does not involve its node; the airspace keys its load by hz and its capacity by frequency name. -/
 theorem C18_gen_flags :
-    Gen.Link.tickResetsEveryLoad = true ∧ Gen.Link.disableClearsLoad = true ∧
-    Gen.Link.rejectedMeansNodeNotInvolved = true ∧ Gen.Link.bytesPerMbit = 131072 := by decide
+    Gen.Link.tickResetsEveryLoad = true ∧ Gen.Link.disableClearsLoad = false ∧
+    Gen.Link.rejectedMeansNodeNotInvolved = true ∧ Gen.Link.bytesPerMbit = 131072 ∧
+    Gen.Link.airLoadKey = "frequency_hz" ∧ Gen.Link.airCapacityKey = "name" := by decide
 
 /-! ### Non-vacuity: a tight link, an ARP-like request whose delivery triggers the reply -/
 
@@ -402,32 +434,20 @@ example :
     Inv n ∧ r.1.links = [{ bw := 10, load := 6, enA := true, enB := true }] ∧
     r.2.map (·.verdict) = [.full, .carried] := by decide
 
-/-- Disabling an end in the middle of a delivery: the load is cleared, later sends are refused as `down`. -/
+/-- Disabling an end in the middle of a delivery: the load stays, later sends are refused as `down`. -/
 example :
     let n : Net := { links := [{ bw := 10, load := 0, enA := true, enB := true }], chans := [] }
     let r := run n [.act [.send 0 true 4 true [.setEn 0 false false, .send 0 false 1 true []]], .act [.send 0 true 1 true []]]
-    r.1.links = [{ bw := 10, load := 0, enA := true, enB := false }] ∧
+    r.1.links = [{ bw := 10, load := 4, enA := true, enB := false }] ∧
     r.2.map (·.verdict) = [.disabled, .carried, .down] := by decide
 
 /-- Wireless: three interfaces, the third disabled; a send from 0 reaches exactly interface 1. -/
 example :
-    let n : Net := { links := [], chans := [{ cap := 10, load := 0, en := [true, true, false] }] }
+    let n : Net := { links := [], chans := [{ caps := [10, 10, 10], load := 0, en := [true, true, false] }] }
     let r := run n [.act [.wsend 0 0 7 [.wsend 0 1 4 []]], .tick, .act [.wsend 0 2 1 []]]
     r.2.map (fun x => (x.verdict, x.rcv, x.load)) = [(.full, [], 7), (.carried, [1], 7), (.disabled, [], 0)] := by decide
 
 /-! ### Exact accounting: the load *is* the data carried -/
-
-mutual
-/-- No interface of a wired link is disabled anywhere in the event (enabling is allowed). -/
-def Ev.noDisable : Ev → Bool
-  | .send _ _ _ _ nested => noDisables nested
-  | .wsend _ _ _ nested => noDisables nested
-  | .setEn _ _ v => v
-  | .wsetEn _ _ _ => true
-def noDisables : List Ev → Bool
-  | [] => true
-  | e :: es => e.noDisable && noDisables es
-end
 
 /-- Size of the frame if this record says it was carried over wired link (`w = false`) / wireless channel (`w = true`) `k`. -/
 def Rec.carriedBy (r : Rec) (w : Bool) (k : Nat) : Nat :=
@@ -469,7 +489,9 @@ theorem cloadOf_eq (n : Net) (c : Nat) (ch : Chan) (hc : n.chans[c]? = some ch) 
   simp [cloadOf, hc]
 
 mutual
-theorem runEv_accounts (n : Net) (e : Ev) (hnd : e.noDisable = true) (k : Nat) :
+/-- Wired: the load of a link grows by exactly the data carried over it — unconditionally (since the repair of F-40 nothing
+but the tick lowers a load). -/
+theorem runEv_accounts (n : Net) (e : Ev) (k : Nat) :
     loadOf (runEv n e).1 k = loadOf n k + carriedOn false k (runEv n e).2 := by
   cases e with
   | send k0 fromA s acc nested =>
@@ -485,8 +507,7 @@ theorem runEv_accounts (n : Net) (e : Ev) (hnd : e.noDisable = true) (k : Nat) :
             cases acc with
             | true =>
               simp only [if_true]
-              have hnd' : noDisables nested = true := by simpa [Ev.noDisable] using hnd
-              have ih := runEvs_accounts { n with links := n.links.set k0 { l with load := l.load + s } } nested hnd' k
+              have ih := runEvs_accounts { n with links := n.links.set k0 { l with load := l.load + s } } nested k
               rw [ih, carriedOn_append, loadOf_set n k0 k l _ hk]
               by_cases hkk : k = k0
               · subst hkk
@@ -505,7 +526,6 @@ theorem runEv_accounts (n : Net) (e : Ev) (hnd : e.noDisable = true) (k : Nat) :
       · simp [h1, carriedOn, Rec.carriedBy]
   | wsend c i s nested =>
     unfold runEv
-    have hnd' : noDisables nested = true := by simpa [Ev.noDisable] using hnd
     cases hc : n.chans[c]? with
     | none => simp [carriedOn, Rec.carriedBy]
     | some ch =>
@@ -513,26 +533,29 @@ theorem runEv_accounts (n : Net) (e : Ev) (hnd : e.noDisable = true) (k : Nat) :
       cases hi : ch.en[i]? with
       | none => simp [carriedOn, Rec.carriedBy]
       | some enS =>
+        simp only
+        cases hcI : ch.caps[i]? with
+        | none => simp [carriedOn, Rec.carriedBy]
+        | some capI =>
+        simp only
         cases enS with
         | false => simp [carriedOn, Rec.carriedBy]
         | true =>
-          by_cases h3 : admits ch.load s ch.cap = true
+          by_cases h3 : admits ch.load s capI = true
           · simp only [h3, Bool.not_true, Bool.false_eq_true, if_false]
-            have ih := runEvs_accounts { n with chans := n.chans.set c { ch with load := ch.load + s } } nested hnd' k
+            have ih := runEvs_accounts { n with chans := n.chans.set c { ch with load := ch.load + s } } nested k
             rw [ih, carriedOn_append]
             simp [carriedOn, Rec.carriedBy, loadOf]
           · simp [h3, carriedOn, Rec.carriedBy]
   | setEn k0 endA v =>
     unfold runEv
-    have hv : v = true := by simpa [Ev.noDisable] using hnd
-    subst hv
     cases hk : n.links[k0]? with
     | none => simp [carriedOn]
     | some l =>
       simp only
-      by_cases hcur : ((if endA then l.enA else l.enB) == true) = true
+      by_cases hcur : ((if endA then l.enA else l.enB) == v) = true
       · simp [hcur, carriedOn]
-      · simp only [hcur, Bool.false_eq_true, if_false, if_true]
+      · simp only [hcur, Bool.false_eq_true, if_false]
         rw [loadOf_set n k0 k l _ hk]
         by_cases hkk : k = k0
         · subst hkk
@@ -544,15 +567,14 @@ theorem runEv_accounts (n : Net) (e : Ev) (hnd : e.noDisable = true) (k : Nat) :
     | none => simp [carriedOn]
     | some ch => simp [carriedOn, loadOf]
 
-theorem runEvs_accounts (n : Net) (es : List Ev) (hnd : noDisables es = true) (k : Nat) :
+theorem runEvs_accounts (n : Net) (es : List Ev) (k : Nat) :
     loadOf (runEvs n es).1 k = loadOf n k + carriedOn false k (runEvs n es).2 := by
   cases es with
   | nil => simp [runEvs, carriedOn]
   | cons e es =>
     unfold runEvs
-    have h12 : e.noDisable = true ∧ noDisables es = true := by simpa [noDisables] using hnd
-    have h1 := runEv_accounts n e h12.1 k
-    have h2 := runEvs_accounts (runEv n e).1 es h12.2 k
+    have h1 := runEv_accounts n e k
+    have h2 := runEvs_accounts (runEv n e).1 es k
     simp only
     rw [h2, h1, carriedOn_append]
     omega
@@ -614,10 +636,15 @@ theorem runEv_bw (n : Net) (e : Ev) (k : Nat) :
       cases hi : ch.en[i]? with
       | none => exact ⟨rfl, rfl⟩
       | some enS =>
+        simp only
+        cases hcI : ch.caps[i]? with
+        | none => exact ⟨rfl, rfl⟩
+        | some capI =>
+        simp only
         cases enS with
         | false => simp
         | true =>
-          by_cases h3 : admits ch.load s ch.cap = true
+          by_cases h3 : admits ch.load s capI = true
           · simp only [h3, Bool.not_true, Bool.false_eq_true, if_false]
             have ih := runEvs_bw { n with chans := n.chans.set c { ch with load := ch.load + s } } nested k
             rw [ih.1, ih.2, capOf_set n c k ch { ch with load := ch.load + s } hc rfl]
@@ -687,10 +714,15 @@ theorem runEv_air_accounts (n : Net) (e : Ev) (c : Nat) :
       cases hi : ch.en[i]? with
       | none => simp [carriedOn, Rec.carriedBy]
       | some enS =>
+        simp only
+        cases hcI : ch.caps[i]? with
+        | none => simp [carriedOn, Rec.carriedBy]
+        | some capI =>
+        simp only
         cases enS with
         | false => simp [carriedOn, Rec.carriedBy]
         | true =>
-          by_cases h3 : admits ch.load s ch.cap = true
+          by_cases h3 : admits ch.load s capI = true
           · simp only [h3, Bool.not_true, Bool.false_eq_true, if_false]
             have ih := runEvs_air_accounts { n with chans := n.chans.set c0 { ch with load := ch.load + s } } nested c
             rw [ih, carriedOn_append, cloadOf_set n c0 c ch _ hc]
@@ -748,22 +780,37 @@ theorem bwOf_tick (n : Net) (k : Nat) : bwOf (tick n) k = bwOf n k ∧ capOf (ti
   simp only [List.getElem?_map]
   constructor
   · cases n.links[k]? <;> simp
-  · cases n.chans[k]? <;> simp
+  · cases n.chans[k]? <;> simp [Chan.cap]
 
-/-- **The data carried by a wired link in a tick is its load, and is within its bandwidth** — for every tick in which no
-interface is disabled (see `C18_carried_counterexample` for why the hypothesis is there). A tick is `tick` followed by any
-forest of events. -/
-theorem C18_carried_le_bandwidth_partial (n : Net) (evs : List Ev) (k : Nat) (hnd : noDisables evs = true) :
+/-- **The data carried by a wired link in a tick is its load, and is within its bandwidth** — for *every* tick, whatever
+happens in it: sends nested in deliveries to any depth, interfaces disabled and re-enabled at any point (full strength since the
+repair of F-40; see `C18_asWritten_disable_counterexample` for what was wrong). A tick is `tick` followed by any forest. -/
+theorem C18_carried_le_bandwidth (n : Net) (evs : List Ev) (k : Nat) :
     carriedOn false k (runEvs (tick n) evs).2 = loadOf (runEvs (tick n) evs).1 k ∧
     carriedOn false k (runEvs (tick n) evs).2 ≤ bwOf n k := by
-  have hacc := runEvs_accounts (tick n) evs hnd k
+  have hacc := runEvs_accounts (tick n) evs k
   rw [loadOf_tick, Nat.zero_add] at hacc
   have hinv := (runEvs_ok (tick n) evs (tick_inv n)).1
   have hle := inv_loadOf hinv k
   rw [(runEvs_bw (tick n) evs k).1, (bwOf_tick n k).1] at hle
   exact ⟨hacc.symm, by omega⟩
 
-/-- **The data sent on a wireless channel in a tick is its load, and is within its capacity** (no side condition). -/
+/-- The property read literally for wired links: whatever happens in a tick, the data carried stays within the bandwidth. -/
+def C18_Full_carried : Prop :=
+  ∀ (n : Net) (evs : List Ev) (k : Nat), carriedOn false k (runEvs (tick n) evs).2 ≤ bwOf n k
+
+/-- It holds (it was false before the repair of F-40). -/
+theorem C18_Full_carried_holds : C18_Full_carried := fun n evs k => (C18_carried_le_bandwidth n evs k).2
+
+/-- the former counterexample, now within the bandwidth: send 8, disable, enable, send 8 on a link of 10 — the second send is
+dropped at the sender as `full` -/
+example :
+    let n : Net := { links := [{ bw := 10, load := 0, enA := true, enB := true }], chans := [] }
+    let r := runEvs (tick n) [.send 0 true 8 true [], .setEn 0 false false, .setEn 0 false true, .send 0 true 8 true []]
+    r.2.map (·.verdict) = [.carried, .full] ∧ carriedOn false 0 r.2 = 8 ∧ loadOf r.1 0 = 8 := by decide
+
+/-- **The data sent on a wireless channel (hz) in a tick is its load, and is within the largest capacity of any frequency name
+configured on that hz** (with one name per hz: within *the* capacity of the channel). No side condition. -/
 theorem C18_air_carried_le_capacity (n : Net) (evs : List Ev) (c : Nat) :
     carriedOn true c (runEvs (tick n) evs).2 = cloadOf (runEvs (tick n) evs).1 c ∧
     carriedOn true c (runEvs (tick n) evs).2 ≤ capOf n c := by
@@ -774,21 +821,292 @@ theorem C18_air_carried_le_capacity (n : Net) (evs : List Ev) (c : Nat) :
   rw [(runEvs_bw (tick n) evs c).2, (bwOf_tick n c).2] at hle
   exact ⟨hacc.symm, by omega⟩
 
-/-- The property read literally for wired links: whatever happens in a tick, the data carried stays within the bandwidth. -/
-def C18_Full_carried : Prop :=
-  ∀ (n : Net) (evs : List Ev) (k : Nat), carriedOn false k (runEvs (tick n) evs).2 ≤ bwOf n k
+/-! ### Two frequency names on one hz: capacity per name, load per hz
 
-/-- It is false of the code: `Link.endpoint_down` clears `current_load` when an end interface is disabled, so an interface
-that goes down and comes back within one tick lets the link carry a second bandwidth's worth (8 + 8 over a link of 10). -/
-theorem C18_carried_counterexample : ¬ C18_Full_carried := by
+`AirSpace.can_transmit_frame` tests `bandwidth_load[hz] + size <= capacity(name of the sender)`.  What that guarantees, for every
+bound `C`: the data sent in a tick by all interfaces whose own capacity is at most `C` is at most `C` — in particular the
+interfaces of one frequency name never send more than that name's capacity.  What it does not guarantee: that the load of the hz
+stays within the *smaller* of two capacities registered on it (`C18_air_two_names_counterexample`). -/
+
+/-- Size of the frame if the record is a wireless send on channel `c` that was carried and admitted against a capacity `≤ C`. -/
+def Rec.sentUnder (r : Rec) (c C : Nat) : Nat :=
+  if r.wireless = true ∧ r.k = c ∧ r.verdict = .carried ∧ r.capS ≤ C then r.size else 0
+
+def sentUnder (c C : Nat) : List Rec → Nat
+  | [] => 0
+  | r :: rs => r.sentUnder c C + sentUnder c C rs
+
+theorem sentUnder_append (c C : Nat) (a b : List Rec) :
+    sentUnder c C (a ++ b) = sentUnder c C a + sentUnder c C b := by
+  induction a with
+  | nil => simp [sentUnder]
+  | cons r rs ih => simp [sentUnder, ih, Nat.add_assoc]
+
+theorem sentUnder_le_carriedOn (c C : Nat) (rs : List Rec) : sentUnder c C rs ≤ carriedOn true c rs := by
+  induction rs with
+  | nil => simp [sentUnder, carriedOn]
+  | cons r rs ih =>
+    simp only [sentUnder, carriedOn, Rec.sentUnder, Rec.carriedBy]
+    by_cases h : r.wireless = true ∧ r.k = c ∧ r.verdict = .carried ∧ r.capS ≤ C
+    · simp only [h, and_self, if_true]; omega
+    · simp only [h, if_false]; omega
+
+mutual
+theorem runEv_under (n : Net) (e : Ev) (c C A : Nat) (hA : A ≤ cloadOf n c) (hC : A ≤ C) :
+    A + sentUnder c C (runEv n e).2 ≤ C := by
+  cases e with
+  | send k0 fromA s acc nested =>
+    unfold runEv
+    cases hk : n.links[k0]? with
+    | none => simpa [sentUnder, Rec.sentUnder] using hC
+    | some l =>
+      simp only
+      by_cases h1 : (if fromA then l.enA else l.enB) = true
+      · by_cases h2 : l.isUp = true
+        · by_cases h3 : admits l.load s l.bw = true
+          · simp only [h1, h2, h3, Bool.not_true, Bool.false_eq_true, if_false]
+            cases acc with
+            | true =>
+              simp only [if_true]
+              have ih := runEvs_under { n with links := n.links.set k0 { l with load := l.load + s } } nested c C A
+                (by simpa [cloadOf] using hA) hC
+              rw [sentUnder_append]
+              simpa [sentUnder, Rec.sentUnder] using ih
+            | false => simpa [sentUnder, Rec.sentUnder] using hC
+          · simpa [h1, h2, h3, sentUnder, Rec.sentUnder] using hC
+        · simpa [h1, h2, sentUnder, Rec.sentUnder] using hC
+      · simpa [h1, sentUnder, Rec.sentUnder] using hC
+  | wsend c0 i s nested =>
+    unfold runEv
+    cases hc : n.chans[c0]? with
+    | none => simpa [sentUnder, Rec.sentUnder] using hC
+    | some ch =>
+      simp only
+      cases hi : ch.en[i]? with
+      | none => simpa [sentUnder, Rec.sentUnder] using hC
+      | some enS =>
+        simp only
+        cases hcI : ch.caps[i]? with
+        | none => simpa [sentUnder, Rec.sentUnder] using hC
+        | some capI =>
+        simp only
+        cases enS with
+        | false => simpa [sentUnder, Rec.sentUnder] using hC
+        | true =>
+          by_cases h3 : admits ch.load s capI = true
+          · simp only [h3, Bool.not_true, Bool.false_eq_true, if_false]
+            have hfit : ch.load + s ≤ capI := by simpa [admits] using h3
+            rw [sentUnder_append]
+            have hload := cloadOf_set n c0 c ch { ch with load := ch.load + s } hc
+            by_cases hcc : c = c0
+            · subst hcc
+              have hL : cloadOf n c = ch.load := cloadOf_eq n c ch hc
+              simp only [if_true] at hload
+              by_cases hlow : capI ≤ C
+              · have ih := runEvs_under { n with chans := n.chans.set c { ch with load := ch.load + s } } nested c C (A + s)
+                  (by rw [hload]; omega) (by omega)
+                simp [sentUnder, Rec.sentUnder, hlow]; omega
+              · have ih := runEvs_under { n with chans := n.chans.set c { ch with load := ch.load + s } } nested c C A
+                  (by rw [hload]; omega) hC
+                simp [sentUnder, Rec.sentUnder, hlow]; omega
+            · simp only [hcc, if_false] at hload
+              have ih := runEvs_under { n with chans := n.chans.set c0 { ch with load := ch.load + s } } nested c C A
+                (by rw [hload]; exact hA) hC
+              have : ¬ c0 = c := fun e => hcc e.symm
+              simp [sentUnder, Rec.sentUnder, this]; omega
+          · simpa [h3, sentUnder, Rec.sentUnder] using hC
+  | setEn k0 endA v =>
+    unfold runEv
+    cases hk : n.links[k0]? with
+    | none => simpa [sentUnder] using hC
+    | some l =>
+      simp only
+      by_cases hcur : ((if endA then l.enA else l.enB) == v) = true
+      · simpa [hcur, sentUnder] using hC
+      · simpa [hcur, sentUnder] using hC
+  | wsetEn c0 i v =>
+    unfold runEv
+    cases hc : n.chans[c0]? with
+    | none => simpa [sentUnder] using hC
+    | some ch => simpa [sentUnder] using hC
+
+theorem runEvs_under (n : Net) (es : List Ev) (c C A : Nat) (hA : A ≤ cloadOf n c) (hC : A ≤ C) :
+    A + sentUnder c C (runEvs n es).2 ≤ C := by
+  cases es with
+  | nil => simpa [runEvs, sentUnder] using hC
+  | cons e es =>
+    unfold runEvs
+    have h1 := runEv_under n e c C A hA hC
+    have hacc := runEv_air_accounts n e c
+    have hle := sentUnder_le_carriedOn c C (runEv n e).2
+    have h2 := runEvs_under (runEv n e).1 es c C (A + sentUnder c C (runEv n e).2) (by omega) h1
+    simp only
+    rw [sentUnder_append]
+    omega
+end
+
+/-- **Wireless, per capacity.** In a tick, the data sent on a channel by all interfaces whose frequency name has a capacity of
+at most `C` is at most `C` — whatever the other names registered on the same hz are allowed. With `C` the capacity of one name:
+the interfaces of that name never send more than their name's capacity. -/
+theorem C18_air_sent_le_own_capacity (n : Net) (evs : List Ev) (c C : Nat) :
+    sentUnder c C (runEvs (tick n) evs).2 ≤ C := by
+  have := runEvs_under (tick n) evs c C 0 (Nat.zero_le _) (Nat.zero_le _)
+  omega
+
+/-- With a single capacity on the hz (one frequency name, or names of equal capacity) every carried send counts, so the theorem
+above is the statement "data sent on the channel ≤ the channel's capacity". -/
+example :
+    let n : Net := { links := [], chans := [{ caps := [10, 10], load := 0, en := [true, true] }] }
+    let r := runEvs (tick n) [.wsend 0 0 4 [.wsend 0 1 5 []], .wsend 0 1 2 []]
+    sentUnder 0 10 r.2 = carriedOn true 0 r.2 ∧ carriedOn true 0 r.2 = 9 ∧ r.2.map (·.verdict) = [.carried, .carried, .full] := by
+  decide
+
+/-- The statement "the load of a hz never exceeds the capacity of *any* frequency name registered on it". -/
+def C18_Full_air_every_name : Prop :=
+  ∀ (n : Net) (evs : List Ev) (c : Nat) (ch : Chan), (runEvs (tick n) evs).1.chans[c]? = some ch → ∀ x ∈ ch.caps, ch.load ≤ x
+
+/-- It is false of the code when two names of different capacity share a hz (interface 0: name with capacity 5, interface 1:
+name with capacity 10): the second name's traffic takes the shared load to 8 > 5. The code's own documentation says the two
+names "share a bandwidth"; which capacity that shared channel has is not defined, so this is recorded as an observation, and
+what *is* guaranteed is `C18_air_sent_le_own_capacity` and `C18_air_carried_le_capacity`. -/
+theorem C18_air_two_names_counterexample : ¬ C18_Full_air_every_name := by
   intro h
-  have := h { links := [{ bw := 10, load := 0, enA := true, enB := true }], chans := [] }
-    [.send 0 true 8 true [], .setEn 0 false false, .setEn 0 false true, .send 0 true 8 true []] 0
+  have := h { links := [], chans := [{ caps := [5, 10], load := 0, en := [true, true] }] }
+    [.wsend 0 1 8 []] 0 { caps := [5, 10], load := 8, en := [true, true] } (by decide) 5 (by decide)
   revert this
   decide
 
-example : noDisables [.send 0 true 6 true [.send 0 false 6 true [], .setEn 1 true true], .wsend 0 0 3 []] = true := by decide
+/-! ### Every tick of every history
 
+`runSeg` runs a history and cuts the trace at the tick boundaries: one list of records per tick (the first list is what happened
+before the first `tick` of the history). -/
+
+def runSeg (n : Net) (cur : List Rec) : List Op → Net × List (List Rec)
+  | [] => (n, [cur])
+  | .tick :: os => let r := runSeg (tick n) [] os; (r.1, cur :: r.2)
+  | .act evs :: os => let r := runEvs n evs; runSeg r.1 (cur ++ r.2) os
+
+/-- `runSeg` is `run` with the trace cut into ticks: same final state, same records in the same order. -/
+theorem runSeg_eq_run (n : Net) (cur : List Rec) (ops : List Op) :
+    (runSeg n cur ops).1 = (run n ops).1 ∧ (runSeg n cur ops).2.flatten = cur ++ (run n ops).2 := by
+  induction ops generalizing n cur with
+  | nil => simp [runSeg, run]
+  | cons o os ih =>
+    cases o with
+    | tick =>
+      obtain ⟨h1, h2⟩ := ih (tick n) []
+      simp only [runSeg, run, step, List.flatten_cons, List.nil_append]
+      exact ⟨h1, by rw [h2]; simp⟩
+    | act evs =>
+      obtain ⟨h1, h2⟩ := ih (runEvs n evs).1 (cur ++ (runEvs n evs).2)
+      simp only [runSeg, run, step]
+      exact ⟨h1, by rw [h2]; simp⟩
+
+/-- What a tick's trace `cur` and the state `n` it has led to have in common: within capacity, and on every link / channel the
+data carried so far in the tick is covered by the load; the low-capacity senders are within their bound. -/
+def SegOk (n : Net) (cur : List Rec) : Prop :=
+  Inv n ∧ (∀ k, carriedOn false k cur ≤ loadOf n k) ∧ (∀ c, carriedOn true c cur ≤ cloadOf n c) ∧
+  (∀ c C, sentUnder c C cur ≤ cloadOf n c ∧ sentUnder c C cur ≤ C)
+
+theorem segOk_tick (n : Net) : SegOk (tick n) [] :=
+  ⟨tick_inv n, fun _ => Nat.zero_le _, fun _ => Nat.zero_le _, fun _ _ => ⟨Nat.zero_le _, Nat.zero_le _⟩⟩
+
+theorem segOk_act (n : Net) (cur : List Rec) (evs : List Ev) (h : SegOk n cur) :
+    SegOk (runEvs n evs).1 (cur ++ (runEvs n evs).2) := by
+  obtain ⟨hi, hw, ha, hu⟩ := h
+  refine ⟨(runEvs_ok n evs hi).1, ?_, ?_, ?_⟩
+  · intro k
+    rw [carriedOn_append, runEvs_accounts n evs k]
+    have := hw k; omega
+  · intro c
+    rw [carriedOn_append, runEvs_air_accounts n evs c]
+    have := ha c; omega
+  · intro c C
+    rw [sentUnder_append, runEvs_air_accounts n evs c]
+    have h1 := runEvs_under n evs c C (sentUnder c C cur) (hu c C).1 (hu c C).2
+    have h2 := sentUnder_le_carriedOn c C (runEvs n evs).2
+    have := (hu c C).1
+    exact ⟨by omega, h1⟩
+
+theorem runSeg_bw (n : Net) (cur : List Rec) (ops : List Op) (k : Nat) :
+    bwOf (runSeg n cur ops).1 k = bwOf n k ∧ capOf (runSeg n cur ops).1 k = capOf n k := by
+  induction ops generalizing n cur with
+  | nil => exact ⟨rfl, rfl⟩
+  | cons o os ih =>
+    cases o with
+    | tick =>
+      have := ih (tick n) []
+      simp only [runSeg]
+      exact ⟨this.1.trans (bwOf_tick n k).1, this.2.trans (bwOf_tick n k).2⟩
+    | act evs =>
+      have := ih (runEvs n evs).1 (cur ++ (runEvs n evs).2)
+      simp only [runSeg]
+      exact ⟨this.1.trans (runEvs_bw n evs k).1, this.2.trans (runEvs_bw n evs k).2⟩
+
+/-- Every tick's trace of a history is covered by some state of the same capacities that satisfies `SegOk` with it. -/
+theorem runSeg_ok (n : Net) (cur : List Rec) (ops : List Op) (h : SegOk n cur) :
+    ∀ g ∈ (runSeg n cur ops).2, ∃ n', SegOk n' g ∧ ∀ k, bwOf n' k = bwOf n k ∧ capOf n' k = capOf n k := by
+  induction ops generalizing n cur with
+  | nil =>
+    intro g hg
+    simp only [runSeg, List.mem_singleton] at hg
+    subst hg
+    exact ⟨n, h, fun _ => ⟨rfl, rfl⟩⟩
+  | cons o os ih =>
+    cases o with
+    | tick =>
+      intro g hg
+      simp only [runSeg, List.mem_cons] at hg
+      rcases hg with hg | hg
+      · subst hg; exact ⟨n, h, fun _ => ⟨rfl, rfl⟩⟩
+      · obtain ⟨n', h1, h2⟩ := ih (tick n) [] (segOk_tick n) g hg
+        exact ⟨n', h1, fun k => ⟨(h2 k).1.trans (bwOf_tick n k).1, (h2 k).2.trans (bwOf_tick n k).2⟩⟩
+    | act evs =>
+      intro g hg
+      simp only [runSeg] at hg
+      obtain ⟨n', h1, h2⟩ := ih (runEvs n evs).1 (cur ++ (runEvs n evs).2) (segOk_act n cur evs h) g hg
+      exact ⟨n', h1, fun k => ⟨(h2 k).1.trans (runEvs_bw n evs k).1, (h2 k).2.trans (runEvs_bw n evs k).2⟩⟩
+
+/-- **Every tick of every episode.** Start anywhere (any network, any loads), pass a tick boundary, then run any history of
+ticks and actions: in *each* tick of that history, for every wired link the data carried in that tick is within the link's
+bandwidth, for every wireless channel the data sent in that tick is within the channel's (largest) capacity, and for every bound
+`C` the data sent by interfaces whose frequency name has capacity at most `C` is within `C`. -/
+theorem C18_carried_le_bandwidth_every_tick (n : Net) (ops : List Op) :
+    ∀ g ∈ (runSeg (tick n) [] ops).2,
+      (∀ k, carriedOn false k g ≤ bwOf n k) ∧ (∀ c, carriedOn true c g ≤ capOf n c) ∧ (∀ c C, sentUnder c C g ≤ C) := by
+  intro g hg
+  obtain ⟨n', ⟨hi, hw, ha, hu⟩, hb⟩ := runSeg_ok (tick n) [] ops (segOk_tick n) g hg
+  refine ⟨?_, ?_, fun c C => (hu c C).2⟩
+  · intro k
+    have h1 := hw k
+    have h2 := inv_loadOf hi k
+    rw [(hb k).1, (bwOf_tick n k).1] at h2
+    omega
+  · intro c
+    have h1 := ha c
+    have h2 := inv_cloadOf hi c
+    rw [(hb c).2, (bwOf_tick n c).2] at h2
+    omega
+
+/-- three ticks on a link of 10: 8 carried / second 8 refused; 8 carried after a flap; nothing (far interface left disabled) -/
+example :
+    let n : Net := { links := [{ bw := 10, load := 7, enA := true, enB := true }], chans := [] }
+    let r := runSeg (tick n) [] [.act [.send 0 true 8 true []], .act [.send 0 false 8 true []], .tick,
+      .act [.setEn 0 true false, .setEn 0 true true, .send 0 true 8 true [.setEn 0 false false]], .tick, .act [.send 0 true 1 true []]]
+    r.2.map (carriedOn false 0) = [8, 8, 0] ∧ r.2.map (·.map (·.verdict)) = [[.carried, .full], [.carried], [.down]] := by
+  decide
+
+/-! ### What was wrong before the repair of F-40, kept as a checked statement (one link, no nesting) -/
+
+/-- One link as `Link.endpoint_down` used to treat it: `some s` = a send of size `s` that the far interface takes, `none` = one
+end interface is disabled and enabled again (the disable cleared `current_load`). Returns the load and the data carried. -/
+def flapAW (bw : Nat) : Nat × Nat → List (Option Nat) → Nat × Nat
+  | st, [] => st
+  | (load, carried), some s :: es => if load + s ≤ bw then flapAW bw (load + s, carried + s) es else flapAW bw (load, carried) es
+  | (_, carried), none :: es => flapAW bw (0, carried) es
+
+/-- Before the repair: send 8, disable, enable, send 8 on a link of 10 carried 16 in one tick. -/
+theorem C18_asWritten_disable_counterexample : (flapAW 10 (0, 0) [some 8, none, some 8]).2 = 16 := by decide
 
 /-! ### The release of the reservation is safe even if a refusal came after nested sends
 
